@@ -337,15 +337,15 @@ def weave_function(src_fn, spec, path, W, opts, meta):
                     for c in cls:
                         add(lo, "            " + c.body.strip().replace("\n", "\n            ") + ",\n",
                             ob("loop-" + kind, c, {"loop": n}))
-            for c in [c for c in spec.of("body-start") if c.arg == n]:
-                add(lo + 1, "\n" + c.body + "\n")
-            for c in [c for c in spec.of("body-end") if c.arg == n]:
+            for hn, c in enumerate([c for c in spec.of("body-start") if c.arg == n], 1):
+                add(lo + 1, "\n" + c.body + "\n", ob("hint", c, {"name": "loop%d-body-start#%d[%s]" % (n, hn, ",".join(c.tags))}) if c.tags else None)
+            for hn, c in enumerate([c for c in spec.of("body-end") if c.arg == n], 1):
                 pk = prev_sig(toks, lc)
                 semi = "" if toks[pk].text in (";", "}", "{") else ";"  # loop bodies have type ()
-                add(lc, semi + "\n" + c.body + "\n")
+                add(lc, semi + "\n" + c.body + "\n", ob("hint", c, {"name": "loop%d-body-end#%d[%s]" % (n, hn, ",".join(c.tags))}) if c.tags else None)
         for c in spec.of("before"):
             for hn, (a, b) in enumerate(find_anchor(toks[:body_close + 1], c.name, 1 if c.arg is None else c.arg), 1):
-                add(a, "\n" + c.body + "\n", ob("hint", c, {"name": "%s#%d" % (c.name, c.arg if c.arg else hn)}) if c.tags else None)
+                add(a, "\n" + c.body + "\n", ob("hint", c, {"name": "%s#%d[%s]" % (c.name, c.arg if c.arg else hn, ",".join(c.tags))}) if c.tags else None)
         for c in spec.of("block-end"):
             for hn, (a, b) in enumerate(find_anchor(toks[:body_close + 1], c.name, 1 if c.arg is None else c.arg), 1):
                 if toks[b - 1].text != "{":
@@ -353,7 +353,7 @@ def weave_function(src_fn, spec, path, W, opts, meta):
                 bc = match_close(toks, b - 1)
                 pk = prev_sig(toks, bc)
                 semi = "" if toks[pk].text in (";", "}", "{") else ";"
-                add(bc, semi + "\n" + c.body + "\n", ob("hint", c, {"name": "end-of:%s#%d" % (c.name, c.arg if c.arg else hn)}) if c.tags else None)
+                add(bc, semi + "\n" + c.body + "\n", ob("hint", c, {"name": "end-of:%s#%d[%s]" % (c.name, c.arg if c.arg else hn, ",".join(c.tags))}) if c.tags else None)
         for c in spec.of("replace"):
             for hn, (a, b) in enumerate(find_anchor(toks[:body_close + 1], c.name, 1 if c.arg is None else c.arg), 1):
                 # ghost-only replacement (names a closure's return value); checked: the replacement
@@ -376,7 +376,7 @@ def weave_function(src_fn, spec, path, W, opts, meta):
                     deleted.add(dk)
         for c in spec.of("after"):
             for hn, (a, b) in enumerate(find_anchor(toks[:body_close + 1], c.name, 1 if c.arg is None else c.arg), 1):
-                add(b, "\n" + c.body + "\n", ob("hint", c, {"name": "%s#%d" % (c.name, c.arg if c.arg else hn)}) if c.tags else None)
+                add(b, "\n" + c.body + "\n", ob("hint", c, {"name": "%s#%d[%s]" % (c.name, c.arg if c.arg else hn, ",".join(c.tags))}) if c.tags else None)
         if opts.get("vacuity"):
             add(body_open + 1, "\n    assert(false); // VACUITY-PROBE fn-start\n",
                 {"fn": path, "kind": "vacuity", "name": "fn-start", "tags": [], "text": ""})
@@ -388,6 +388,7 @@ def weave_function(src_fn, spec, path, W, opts, meta):
 
     # ---- assemble, tracking lines
     inserts.sort(key=lambda x: (x[0], x[1]))
+    ghost = []
     out = []
     cur_line = 0  # relative line offset
     obs = []
@@ -395,6 +396,9 @@ def weave_function(src_fn, spec, path, W, opts, meta):
     for idx in range(len(toks) + 1):
         while ins_i < len(inserts) and inserts[ins_i][0] == idx:
             _, _, txt, o = inserts[ins_i]
+            if txt.strip():
+                lead0 = len(txt) - len(txt.lstrip("\n"))
+                ghost.append((cur_line + lead0, cur_line + txt.rstrip("\n").count("\n")))
             if o is not None:
                 lead = len(txt) - len(txt.lstrip("\n"))
                 o = dict(o)
@@ -414,6 +418,7 @@ def weave_function(src_fn, spec, path, W, opts, meta):
                 continue
             out.append(t.text)
             cur_line += t.text.count("\n")
+    weave_function.last_ghost = ghost
     return "".join(out), obs
 
 
@@ -628,6 +633,7 @@ def build(repo, contracts_dir, out_dir, vacuity=False, only=None):
             woven, obs = weave_function(txt, sp, p, W, {"vacuity": vacuity}, None)
             base = W.line
             sobs = site_obligations(p, woven, contracted_names)
+            ghost_ranges = [(base + a, base + b) for (a, b) in weave_function.last_ghost]
             for o in obs + sobs:
                 o["line_start"] = base + o.pop("rel_line_start")
                 o["line_end"] = base + o.pop("rel_line_end")
@@ -638,13 +644,18 @@ def build(repo, contracts_dir, out_dir, vacuity=False, only=None):
             fn_records.append({"path": p, "src_file": "src/lib.rs" if toks is S.ltoks else "src/engine.rs",
                                "src_line_start": src_line, "src_line_end": src_end,
                                "woven_line_start": start, "woven_line_end": W.line - 1,
-                               "rules_applied": flog, "sites": sites,
+                               "rules_applied": flog, "sites": sites, "ghost_ranges": ghost_ranges,
                                "has_contract": p in specs})
-            W.obligations.append({"fn": p, "kind": "safety", "name": "", "tags": [],
+            W.obligations.append({"fn": p, "kind": "safety", "name": "", "tags": ["C06"],
                                   "id": "%s/safety" % p,
-                                  "text": "bounds, overflow, termination, callee preconditions not listed "
-                                          "separately, type invariants",
+                                  "text": "executable text: bounds, overflow, termination, preconditions of std "
+                                          "functions (a failure here is a possible panic)",
                                   "line_start": start, "line_end": W.line - 1, "fallback": True})
+            W.obligations.append({"fn": p, "kind": "hints", "name": "", "tags": [],
+                                  "id": "%s/hints" % p,
+                                  "text": "untagged woven proof hints of this function (a failure is attributed to every "
+                                          "property the function's clauses are tagged with)",
+                                  "line_start": start, "line_end": W.line - 1, "fallback": True, "union_tags": True})
         W.emit("\n" if free else "}\n")
     # global proof items (lemmas) from `=== spec` sections
     for g in gl:
